@@ -643,7 +643,7 @@ def run_queue_shapes(ctx: Ctx, rec: Recorder) -> None:
                 for how in ("evict", "clear", "pool-close"):
                     plans.append((maxsize, ends, order, how))
     for i, (maxsize, ends, order, how) in enumerate(plans):
-        if not ctx.mine(i) or (ctx.quick and (i // ctx.nshards) % 3):
+        if not ctx.mine(i) or (ctx.quick and ctx.skip(i, 3)):
             continue
         case = {"mode": "queue-shape", "maxsize": maxsize, "ends": list(ends), "order": list(order), "how": how}
         rec.case(["queue-shape", maxsize, ends, order, how])
